@@ -112,6 +112,13 @@ class Report:
 
     # -- finish -----------------------------------------------------------------------------
     def finish(self) -> int:
+        if os.environ.get("VERIF_SELFTEST"):
+            # selftest mode (in-process mutants): no evidence, no replay files, no VIOLATION lines
+            keys = sorted({v["key"] for v in self.violations if self._match_known(v["key"]) is None})
+            for k in keys[:5]:
+                print(f"  selftest-detected {self.prop}: {k}")
+            self.selftest_keys = keys
+            return 1 if keys else 0
         known_hit: dict = {}
         unknown = []
         for v in self.violations:
@@ -175,3 +182,46 @@ def load_known() -> list:
             with open(p) as f:
                 out += json.load(f)["findings"]
     return out
+
+
+def run_mutants(prop: str, run, mutants: list, tier: str = "quick") -> int:
+    """Selftest driver: ``mutants`` is a list of (name, contextmanager factory).  Each mutant
+    patches the imported library in-process (never /repo), the check is run in selftest mode and
+    must report at least one violation.  Returns 0 iff every mutant is detected."""
+    import contextlib
+    import io
+    os.environ["VERIF_SELFTEST"] = "1"
+    missed = []
+    try:
+        for name, cm in mutants:
+            buf = io.StringIO()
+            try:
+                with cm():
+                    with contextlib.redirect_stdout(buf):
+                        rc = run(tier)
+            except Exception as e:  # a mutant must never crash the harness
+                print(f"selftest {prop} mutant {name}: HARNESS CRASH {type(e).__name__}: {e}")
+                missed.append(name)
+                continue
+            det = [l for l in buf.getvalue().splitlines() if "selftest-detected" in l]
+            print(f"selftest {prop} mutant {name}: {'DETECTED' if rc == 1 else 'MISSED'} {det[:2]}")
+            if rc != 1:
+                missed.append(name)
+    finally:
+        os.environ.pop("VERIF_SELFTEST", None)
+    print(f"selftest {prop}: {len(mutants) - len(missed)}/{len(mutants)} mutants detected; missed: {missed}")
+    return 0 if not missed else 1
+
+
+class patched:
+    """Context manager: temporarily replace attribute ``name`` of ``obj``."""
+
+    def __init__(self, obj, name, value):
+        self.obj, self.name, self.value = obj, name, value
+
+    def __enter__(self):
+        self.old = self.obj.__dict__.get(self.name, getattr(self.obj, self.name))
+        setattr(self.obj, self.name, self.value)
+
+    def __exit__(self, *a):
+        setattr(self.obj, self.name, self.old)
